@@ -128,9 +128,20 @@ void cif_pktitr_free(
     free(iterator);
 }
 
-/* All uthash fatal errors arise from memory allocation failure */
+/*
+ * All uthash fatal errors arise from memory allocation failure.  The only hash addition below moves 'entry' into the
+ * caller's packet; when the table for a packet's first entry cannot be created, uthash leaves that entry as the head
+ * of a table that does not exist, which must be undone (and the entry, which then belongs to no packet, released).
+ */
 #undef uthash_fatal
-#define uthash_fatal(msg) FAIL(soft, CIF_MEMORY_ERROR)
+#define uthash_fatal(msg) do { \
+    if ((*packet)->map.head == entry) { \
+        free(entry->hh.tbl); \
+        (*packet)->map.head = NULL; \
+        cif_map_entry_free_internal(entry, &((*packet)->map)); \
+    } \
+    FAIL(soft, CIF_MEMORY_ERROR); \
+} while (0)
 
 int cif_pktitr_next_packet(
         cif_pktitr_tp *iterator,
